@@ -91,7 +91,8 @@ def cases(draw):
     tens = [h for h in r.env if r.is_tensor[h]]
     keep_extra = [h for h in tens if draw(st.integers(0, 3)) == 0]
     actions = draw(st.lists(st.sampled_from(["view", "use", "use", "use", "inplace", "inplace_via_view", "shape_assign",
-                                             "backward2", "backward2", "null_grad", "read_grad", "inplace_kept_view"]),
+                                             "backward2", "backward2", "null_grad", "read_grad", "inplace_kept_view", "chain_on_kept",
+                                             "chain_on_kept"]),
                             min_size=1, max_size=4))
     picks = draw(st.lists(st.integers(0, 50), min_size=len(actions), max_size=len(actions)))
     return {"mode": mode, "prog": b.prog, "L": L, "keep": keep_extra, "actions": actions, "picks": picks}
@@ -264,6 +265,37 @@ def check_release(case, rec):
                 if x.grad is not None or v.grad is not None:
                     return Mismatch("stale_grad_after_inplace", f"h{h}.grad is still set after an in-place update through a view of h{h}")
                 del v
+            elif act == "chain_on_kept":
+                # a new graph epoch built on a tensor the caller kept (a leaf, or a view that the first backward
+                # disconnected and that now acts as a base of its own): a fresh view of it takes part in a loss;
+                # the view's gradient must be there, be the loss's gradient, and be a view of its base's gradient
+                pool2 = [t for t in run.env.values() if isinstance(t, mg.Tensor) and not t.constant and t.dtype.kind == "f"
+                         and t.ndim >= 1 and t.size > 0]
+                if not pool2:
+                    continue
+                t = pool2[(pk // 3) % len(pool2)]
+                w = t[::-1]
+                z = w.reshape(-1) if (pk % 2 and w.data.flags.c_contiguous) else w[...]
+                cw = np.arange(z.size, dtype=np.float64).reshape(z.shape) + 0.5
+                L2 = (z * cw).sum()
+                try:
+                    L2.backward()
+                except mg.errors.InvalidBackprop:
+                    del L2, z, w, t, pool2
+                    continue
+                for nm, vt, want in (("z", z, cw), ("w", w, cw.reshape(w.shape)), ("t", t, cw.reshape(w.shape)[::-1])):
+                    gv = vt.grad
+                    if gv is None:
+                        return Mismatch("view_grad_missing_in_new_epoch", f"new epoch on a kept tensor: {nm}.grad is None after backward "
+                                                                          f"(t = kept tensor, w = t[::-1], z = view of w)")
+                    if gv.shape != vt.shape or not np.array_equal(gv, want.astype(vt.dtype)):
+                        return Mismatch("view_grad_wrong_in_new_epoch", f"new epoch on a kept tensor: {nm}.grad = {gv.ravel()[:4].tolist()}, "
+                                                                        f"expected {want.ravel()[:4].tolist()}")
+                    bb = vt.base
+                    if bb is not None and bb.grad is not None and not np.shares_memory(gv, bb.grad):
+                        return Mismatch("view_grad_not_view_of_base_grad", f"new epoch on a kept tensor: {nm}.grad does not share memory with "
+                                                                           f"{nm}.base.grad")
+                del L2, z, w, t, pool2, gv, vt, bb
             elif act == "inplace_kept_view":
                 # in-place update of a tensor the caller kept that is (or was, before backward released the view
                 # bookkeeping) a view of x: either the write reaches x's memory - then x was mutated and its gradient
